@@ -231,7 +231,7 @@ def run(chk):
             cs = names.calls_to(co, callee)
             if not chk.require("R3 uv argument", "R3|%s|site" % callee, len(cs) == 1, where(co), "call to %s not found" % callee):
                 continue
-            uv = flow.simplify_term(T.operand(cs[0][1]["args"][-1], cs[0][0], "t"))
+            uv = N.norm(T.operand(cs[0][1]["args"][-1], cs[0][0], "t"))
             if exp == "requested":
                 ok = uv == ("field", ("field", ("upvar", 1), "options"), "uv")
             else:
